@@ -1583,12 +1583,13 @@ impl Relation {
                 }
             }
         }
-        // If this was the last relation in the entry, remove the entire entry
+        // If this was the last relation in the entry, remove the entire entry (with its
+        // separator) from the field as well
         if let Some(mut parent) = self.0.parent().and_then(Entry::cast) {
-            if parent.is_empty() {
+            let only_relation = parent.len() <= 1;
+            self.0.detach();
+            if only_relation {
                 parent.remove();
-            } else {
-                self.0.detach();
             }
         } else {
             self.0.detach();
